@@ -61,6 +61,8 @@ def cmp(x,y):
     elif ly<lx:
         return 1
     if isinstance(x, dict):
+        if lx == 0: # two empty dicts
+            return 0
         xk, xv = zip(*sorted(x.items()))
         yk, yv = zip(*sorted(y.items()))
         c = cmparr(xk, yk)
